@@ -3,7 +3,7 @@ NOTES = ("Contract-based deductive verification of functions extracted mechanica
          "(tools/extract, syn spans). exit 0 holds / exit 1 VIOLATION / exit 2 undecided (lost anchor, tool limit). See DESIGN.md.")
 
 # properties whose thorough tier has been run to completion (exit 0) on the unchanged tree
-THOROUGH_VALIDATED = {"C03", "C06", "C12", "C22", "C29"}   # for these thorough == quick + nothing heavier
+THOROUGH_VALIDATED = {"C01", "C03", "C06", "C12", "C13", "C14", "C21", "C22", "C29"}   # C07, C17, C23: the thorough tier ran out of memory / time on this machine and is not registered
 
 CHECKS = [
     {"id": "C01", "engine": "kani", "level": "other", "design_ref": "DESIGN.md 0A.1, 0A.2 (D10)",
